@@ -405,6 +405,8 @@ class Interp:
             raise Unsupported("assignment target %s" % type(t).__name__)
 
     def setattr(self, o, name, v):
+        if hasattr(o, "__aovc_setattr__") and o.__aovc_setattr__(self, name, v):
+            return
         if isinstance(o, Obj):
             o.attrs[name] = v
             o.attr_writes.append((name, self.ctx.lineno))
